@@ -267,3 +267,62 @@ func HarnessC19_Evict() {
 	}
 	vfCover("c19-evict-done")
 }
+
+func init() { vfRegister("HarnessC19_Aliasing", HarnessC19_Aliasing) }
+
+// HarnessC19_Aliasing: values stored under two keys one after the other, by any
+// pair of write operations, through every stacking order of the wrappers, with
+// symbolic bytes of equal length (so that a buffer reused between the two
+// writes would still decode): each key reads back its own bytes. sync.Pool
+// hands back the most recently returned object (engine model), as the runtime
+// does for a goroutine that stays on its P.
+func HarnessC19_Aliasing() {
+	n := 1 + vfChoice("len", vfParam("len", 3))
+	v1, v2 := vfBytes("v1", n), vfBytes("v2", n)
+	mock := NewMockCache()
+	logger := log.NewNopLogger()
+	perms := [][]byte{{'S', 'V', 'L'}, {'S', 'L', 'V'}, {'L', 'V', 'S'}, {'V', 'S', 'L'}, {'L', 'S', 'V'}, {'V', 'L', 'S'}, {'S'}, {'V', 'S'}}
+	var c Cache = mock
+	for _, w := range perms[vfChoice("stack", len(perms))] {
+		switch w {
+		case 'S':
+			c = NewSnappy(c, logger)
+		case 'V':
+			c = NewVersioned(c, 1, logger)
+		case 'L':
+			l, err := WrapWithLRUCache(c, "t", nil, 2, time.Hour, logger)
+			vfAssert(err == nil, "C19 LRU wrapper is created")
+			c = l
+		}
+	}
+	ctx := context.Background()
+	write := func(k string, v []byte) {
+		switch vfChoice("write", 4) {
+		case 0:
+			vfAssert(c.Set(ctx, k, v, time.Hour) == nil, "C19 Set on the in-process backend succeeds")
+		case 1:
+			vfAssert(c.Add(ctx, k, v, time.Hour) == nil, "C19 Add of an absent key succeeds")
+		case 2:
+			c.SetAsync(k, v, time.Hour)
+		case 3:
+			c.SetMultiAsync(map[string][]byte{k: v}, time.Hour)
+		}
+	}
+	write("k1", v1)
+	write("k2", v2)
+	res := c.GetMulti(ctx, []string{"k1", "k2"})
+	for k, want := range map[string][]byte{"k1": v1, "k2": v2} {
+		got, ok := res[k]
+		vfAssert(ok, "C19 a value just stored in the in-process backend is found")
+		if ok {
+			same := len(got) == len(want)
+			if same {
+				for i := range want {
+					same = vfAnd(same, got[i] == want[i])
+				}
+			}
+			vfAssert(same, "C19 each key reads back the bytes stored under it, byte for byte")
+		}
+	}
+	vfCover("c19-aliasing-done")
+}
